@@ -380,10 +380,15 @@ def compare_histories(hists, outs, obs_key="o"):
 
 # ---------------------------------------------------------------- findings
 def load_findings(pid):
-    p = os.path.join(ROOT, "known_findings.json")
-    if not os.path.exists(p):
-        return []
-    return [f for f in json.load(open(p))["findings"] if f["property"] == pid]
+    out = []
+    for p in sorted(glob.glob(os.path.join(ROOT, "known_findings.d", "*.json"))):
+        try:
+            f = json.load(open(p))
+        except Exception as e:
+            raise InfraError("bad known-findings file %s: %s" % (p, e))
+        if f.get("property") == pid:
+            out.append(f)
+    return out
 
 
 # ---------------------------------------------------------------- check bookkeeping
